@@ -19,19 +19,15 @@ import re
 from . import common
 
 MODULE = "StorageModel.Properties.C09"
-THEOREMS = ["check_readonly", "check_readonly_partial", "check_complete", "check_sound_reports", "check_sound",
-            "check_clean_iff", "fix_converges", "fix_idempotent", "fix_noop_on_consistent", "fix_preserves_wf", "fix_mirrors",
-            "universe_schema_ok", "quirks_recognised", "empty_alias_consistent", "empty_alias_unsound",
-            "empty_alias_not_convergent", "empty_alias_clean_when_repaired", "check_creates_link_buckets",
-            "check_readonly_when_repaired"]
-TABLE_OBLIGATIONS = ["quirks_recognised (Generated/C09Quirks.lean, regenerated from boltz/link_collection.go and "
-                     "boltz/indexes.go: which variant of IterateLinks / of the unique-index nil test the code has)"]
+THEOREMS = ["code_shape_is_repaired", "check_readonly", "check_reports_unfixed", "check_complete", "check_sound_reports",
+            "check_sound", "check_clean_iff", "fix_converges", "fix_idempotent", "fix_noop_on_consistent",
+            "fix_preserves_wf", "fix_mirrors", "universe_schema_ok", "empty_alias_clean", "one_transaction_fix_converges"]
+TABLE_OBLIGATIONS = ["code_shape_is_repaired (Generated/C09Quirks.lean, regenerated from boltz/link_collection.go and "
+                     "boltz/indexes.go: IterateLinks is a read-only lookup, the unique-index entity loop skips an empty "
+                     "value like nil, dangling links are removed after the link-cursor loop)"]
 
 
 PROP = "c09"
-SKIP_CLASSES = {"lkDangling", "uqDangling", "uqStale", "sxDangling", "sxStale", "sxJunk", "fkBackDangling",
-                "fkBackStale"}
-LINK_FIELDS = {"groups", "members"}
 
 
 # ----------------------------------------------------------------------------------- parsing
@@ -69,92 +65,13 @@ def parse_verdict(v):
     return res
 
 
-def state_tokens(state):
-    return state.split(" ")
-
-
-def only_link_buckets_created(before, after):
-    """the two canonical states differ only by link buckets (groups/members) going from absent to empty"""
-    a, b = state_tokens(before), state_tokens(after)
-    if len(a) != len(b):
-        return False
-    diff = False
-    for i, (x, y) in enumerate(zip(a, b)):
-        if x == y:
-            continue
-        if x == "~" and y == "=" and i > 0 and a[i - 1] in LINK_FIELDS:
-            diff = True
-            continue
-        return False
-    return diff
-
-
 # ---------------------------------------------------------------------------------- matchers
-# a matcher sees (case line, info) with info = {"clause", "items", "impl", "model", "obs", "case"}
-# and says whether the known finding explains THIS failing clause of this case.
+# a matcher sees (case line, info) with info = {"clause", "items", "impl", "model", "obs", "case"} and says
+# whether a known finding explains THIS failing clause of this case.  The three findings of the first
+# round (link check creating buckets in check-only mode, "" in a nullable unique index, cursor-delete
+# skip in one transaction) are repaired in /repo (946f949, 6e61536, 0fc3c29); nothing is listed now.
 
-def m_link_bucket(case, info):
-    if info["clause"] != "readonly":
-        return False
-    obs, c = info["obs"], info["case"]
-    if obs is None or "fixed-flag" in info["items"]:
-        return False
-    ok = True
-    if "ro1" in info["items"]:
-        ok = ok and obs["ro1"].startswith("changed D ") and only_link_buckets_created(c["state"], obs["ro1"][10:])
-    if "ro3" in info["items"]:
-        ok = ok and obs["ro3"].startswith("changed D ") and only_link_buckets_created(obs["D2"], obs["ro3"][10:])
-    return ok
-
-
-def m_empty_unique(case, info):
-    if info["clause"] not in ("sound", "converge", "fixsound", "flags"):
-        return False
-    # every offending report is "unique index ... missing value <empty> for id ..."
-    return bool(info["items"]) and all(re.fullmatch(r"uqMissing:[\w.]+:-:[0-9a-f]+:[tf]", it) for it in info["items"])
-
-
-def skipped_reports(impl_r, model_r):
-    """impl_r is model_r with some reports left out (order kept): returns the left-out ones, else None"""
-    missing, i = [], 0
-    for r in model_r:
-        if i < len(impl_r) and impl_r[i] == r:
-            i += 1
-        else:
-            missing.append(r)
-    return missing if i == len(impl_r) and missing else None
-
-
-def skip_shaped(info):
-    c, obs = info["case"], info["obs"]
-    if c is None or obs is None or c["mode"] not in ("tx1", "tx1r"):
-        return False
-    mobs = parse_obs(info["model"])
-    if mobs is None:
-        return False
-    if obs["R1"] != mobs["R1"]:
-        return False
-    miss = skipped_reports(obs["R2"], mobs["R2"])
-    if not miss:
-        return False
-    return all(r.split(":")[0] in SKIP_CLASSES for r in miss)
-
-
-def m_one_tx_skip(case, info):
-    # explains: the correspondence disagreement itself, and the convergence / idempotence clauses it causes
-    if info["clause"] not in ("correspondence", "converge", "idempotent", "flags"):
-        return False
-    if not skip_shaped(info):
-        return False
-    twin = info.get("twin_ok")
-    return twin is not False  # the same history+corruptions in separate transactions agreed with the model
-
-
-MATCHERS = {
-    "link_check_creates_buckets_in_check_only_mode": m_link_bucket,
-    "empty_string_in_unique_index_reported_missing": m_empty_unique,
-    "cursor_delete_skips_in_one_transaction": m_one_tx_skip,
-}
+MATCHERS = {}
 
 RULE = ("random histories (4-17 operations through Create/Update/DeleteById/SetLinks on two stores with unique, "
         "nullable-unique, set, fk (nullable / non-nullable / self-referencing) indexes, fk constraints and a link "
